@@ -11,10 +11,10 @@ Open Scope N_scope.
 (* AppendPayload rejects exactly the payloads that exceed the remaining capacity *)
 
 Theorem ip4_append_too_big p b proto :
-  (cap p - len p < length b)%nat <-> ip4_append p b proto = Err EPayloadTooBig.
+  (cap p < 20 + length b)%nat <-> ip4_append p b proto = Err EPayloadTooBig.
 Proof.
   unfold ip4_append.
-  destruct (Nat.ltb_spec (cap p - len p) (length b)) as [H|H]; split; intros H'; try reflexivity; try lia.
+  destruct (Nat.ltb_spec (cap p) (20 + length b)) as [H|H]; split; intros H'; try reflexivity; try lia.
   exfalso. revert H'.
   match goal with |- ?r = _ -> False => assert (N : not_err r) end.
   { unfold ip4_ihl, ip4_totlen. ne; try apply ip4_write_checksum_ne. }
@@ -22,10 +22,10 @@ Proof.
 Qed.
 
 Theorem udp_append_too_big p b :
-  (cap p - len p < length b)%nat <-> udp_append p b = Err EPayloadTooBig.
+  (cap p < 8 + length b)%nat <-> udp_append p b = Err EPayloadTooBig.
 Proof.
   unfold udp_append.
-  destruct (Nat.ltb_spec (cap p - len p) (length b)) as [H|H]; split; intros H'; try reflexivity; try lia.
+  destruct (Nat.ltb_spec (cap p) (8 + length b)) as [H|H]; split; intros H'; try reflexivity; try lia.
   exfalso. revert H'.
   match goal with |- ?r = _ -> False => assert (N : not_err r) end.
   { ne. }
@@ -33,10 +33,10 @@ Proof.
 Qed.
 
 Theorem ip6_append_too_big p b nh :
-  (cap p - len p < length b)%nat <-> ip6_append p b false nh = Err EPayloadTooBig.
+  (cap p < 40 + length b)%nat <-> ip6_append p b false nh = Err EPayloadTooBig.
 Proof.
   unfold ip6_append. cbn [orb].
-  destruct (Nat.ltb_spec (cap p - len p) (length b)) as [H|H]; split; intros H'; try reflexivity; try lia.
+  destruct (Nat.ltb_spec (cap p) (40 + length b)) as [H|H]; split; intros H'; try reflexivity; try lia.
   exfalso. revert H'.
   match goal with |- ?r = _ -> False => assert (N : not_err r) end.
   { ne. }
